@@ -149,6 +149,70 @@ def run(ck, F):
     ck.check(R6, 'string::arena', ok, 'the arena destructor does not walk the whole pool chain (mem = mem->previous until null, releasing each)',
              loc=ad[0]['loc'], fn=ad[0]['id'])
 
+    # the pool chain after an allocation: nothing that was reachable is lost, everything new is reachable
+    R7 = ck.rule('C19.chain-preserved', 'on every path of arena::allocate (and of the constructor) the chain mem -> previous -> ... '
+                 'reaches every block just obtained from operator new, still reaches the old head, and ends in the old tail: '
+                 'the destructor, which walks exactly this chain, releases every block ever allocated', floor=4)
+    from symex import Sym, Unsupported, NULL
+    S7 = Sym(F, opaque=lambda fid: False, max_depth=20)
+    THIS = ('sym', 'this')
+    M0 = ('fld', THIS, 'mem')
+
+    def news_in(t, acc):
+        if isinstance(t, tuple):
+            if t and t[0] == 'call' and isinstance(t[1], str) and t[1].startswith('operator new('):
+                acc.add(t)
+            for x in t:
+                news_in(x, acc)
+        return acc
+    arena_fns = [f for f in F.fns_in('ipr::util::string::arena')
+                 if any((n['callee'].get('name') == 'operator new') for n in calls_in(f))]
+    if len(arena_fns) < 2:
+        raise AnalysisBroken(f'arena allocation sites: expected the constructor and allocate, found {[f["id"] for f in arena_fns]}')
+    for f in sorted(arena_fns, key=lambda f: f['id']):
+        try:
+            outs = S7.run(f['id'], this=THIS)
+        except Unsupported as e:
+            raise AnalysisBroken(f'{f["id"]}: outside the evaluator language: {e}')
+        for i, (st, kind, _v) in enumerate(outs):
+            if kind != 'return':
+                continue
+            fresh = set()
+            for k, v in st.symstore.items():
+                news_in(k, fresh)
+                news_in(v, fresh)
+            inst = f'{contracts.short(contracts.fn_qname(f["id"]))}/path{i}'
+            cur = st.symstore.get(M0, M0)
+            visited, tail = [], None
+            for _ in range(8):
+                visited.append(cur)
+                key = ('fld', ('deref', cur), 'previous')
+                if key not in st.symstore:
+                    tail = key
+                    break
+                nxt = st.symstore[key]
+                if nxt == NULL or (isinstance(nxt, tuple) and nxt[0] == 'k'):
+                    tail = NULL
+                    break
+                if isinstance(nxt, tuple) and nxt[0] == 'fld' and nxt[2] == 'previous':
+                    tail = nxt            # the value the link had on entry
+                    break
+                cur = nxt
+            what = []
+            lost = [n for n in fresh if n not in visited]
+            if lost:
+                what.append(f'{len(lost)} block(s) obtained from operator new are not on the chain from mem')
+            if f.get('ctor'):
+                if tail != NULL:
+                    what.append('the first pool\'s previous link is not null')
+            else:
+                if M0 not in visited:
+                    what.append('the pool that was the head on entry is no longer reachable from mem')
+                if tail != ('fld', ('deref', M0), 'previous'):
+                    what.append('the chain no longer ends in the pools that followed the old head (they are never released)')
+            ck.check(R7, inst, not what, f'{f["id"]}: ' + '; '.join(what), loc=f['loc'], fn=f['id'],
+                     detail={'fresh_blocks': len(fresh), 'chain_length_followed': len(visited)})
+
     # payload destruction in the tree
     cont = [r for r in F.rec.values() if r.get('template') == 'ipr::util::rb_tree::container']
     if not cont:
